@@ -113,4 +113,10 @@ TEXT = {
     level_text="Stateful generated histories with boundary-biased 64-bit offsets and canned preludes (generated parameters) that reach stale-handle and removed-directory states; every call runs under recover; the concurrent variant asserts no panic, no race report, no deadlock and a consistent final reference count.",
     level_note="Trusted: the model in harness/ramfsx/model.go, the hook VerifNewServer (fresh instance + nref validator). The concurrent variant does not assert per-call results.",
  ),
+ "C15": dict(
+    technique="property-based testing (rapid histories with a hostile-name alphabet) of the ufs server on a temporary host tree; oracle = invariance of a full snapshot of everything outside the export + identity of returned inodes",
+    design_ref="DESIGN.md section 4, C15",
+    level_text="Generated request sequences put every special name form into every name-carrying field from every depth; the effect on the host is observed directly by snapshotting the area outside the export after every step.",
+    level_note="Trusted: the host file system and os.Lstat/ReadFile for the snapshot. Reads outside that leave no trace in results are not observable.",
+ ),
 }
